@@ -109,7 +109,8 @@ seq_t dtw_distance(seq_t *s1, idx_t l1,
         if (settings->only_ub) {
             return max_dist;
         }
-        max_dist = pow(max_dist, 2);
+        // sqrt followed by pow can round below the exact sum, keep the bound an upper bound
+        max_dist = pow(max_dist, 2) * (1 + 4*DBL_EPSILON);
     } else if (max_dist == 0) {
         max_dist = INFINITY;
     } else {
@@ -345,7 +346,8 @@ seq_t dtw_distance_ndim(seq_t *s1, idx_t l1,
         if (settings->only_ub) {
             return max_dist;
         }
-        max_dist = pow(max_dist, 2);
+        // sqrt followed by pow can round below the exact sum, keep the bound an upper bound
+        max_dist = pow(max_dist, 2) * (1 + 4*DBL_EPSILON);
     } else if (max_dist == 0) {
         max_dist = INFINITY;
     } else {
@@ -1063,7 +1065,8 @@ seq_t dtw_warping_paths_ndim(seq_t *wps,
         } else {
             p.max_dist = ub_euclidean_ndim(s1, l1, s2, l2, ndim);
         }
-        p.max_dist = pow(p.max_dist, 2);
+        // sqrt followed by pow can round below the exact sum, keep the bound an upper bound
+        p.max_dist = pow(p.max_dist, 2) * (1 + 4*DBL_EPSILON);
         if (settings->only_ub) {
             if (keep_int_repr) {
                 return p.max_dist;
